@@ -7,4 +7,5 @@ INVARIANT Refines
 INVARIANT StackIsOpenChain
 INVARIANT ActiveHExact
 INVARIANT OpenCountsExact
+INVARIANT Emit
 CHECK_DEADLOCK FALSE
